@@ -520,8 +520,10 @@ func (w *inotify) handleEvent(inEvent *unix.InotifyEvent, buf *[65536]byte, offs
 						continue
 					}
 					if ww.path == ev.renamedFrom || strings.HasPrefix(ww.path, ev.renamedFrom+"/") {
+						delete(w.watches.path, ww.path)
 						ww.path = ev.Name + ww.path[len(ev.renamedFrom):]
 						w.watches.wd[k] = ww
+						w.watches.path[ww.path] = k
 					}
 				}
 			}
